@@ -31,6 +31,9 @@ func TestCheck(t *testing.T) {
 		"relative to the limit, outcome complete/truncated/error).")
 	r.Assume("shared-cloner phase: one dnsmsg.Cloner is the Disposer of all servers of a separate bench and the handler answers from Cloner.Clone of stored messages (bare OPT, empty option list, one EDE option, unpacked bare OPT, no OPT); " +
 		"batches of clients that ask for padding/keep-alive (DoT, TCP, DoH, DoQ) alternate with batches of clients that ask for neither on every transport; reuse of disposed OPT records is measured by pointer identity in the handler")
+	r.Assume("ecs-cache phase: the handler is ecscache.NewMiddleware (context with agd.RequestInfo, Cloner shared with the servers' Disposer) over a scripted upstream answering with H8's responses; " +
+		"every name is asked three times (miss, then hits over other transports / advertised sizes); responses are judged against the request the client sent; record TTLs are not compared there (the cache counts them down)")
+	r.Assume("a handler that is not part of the repository and edits the request object before passing it to WriteMsg is outside the quantifier (the ResponseWriter contract makes the request it is given the client's request); the repository's own middlewares are inside, hence the ecs-cache phase")
 	r.Assume("the client's UDP size = the CLASS field of the request's OPT, verbatim (normalize documents reqOpt.UDPSize())")
 	r.Assume("DNSCrypt has no configured maximum (the server passes 65535); its bound is max(512, advertised), compared with the decrypted, unpadded DNS message, which is exact")
 	r.Assume("the plain-HTTP DoH instance (meant to sit behind a TLS terminator) counts as DoH, i.e. as an encrypted transport, for the padding rule")
@@ -93,6 +96,25 @@ func TestCheck(t *testing.T) {
 	e.benches = append(e.benches, pb)
 	poolPaths := pooledPaths(len(e.benches) - 1)
 
+	// The bench whose handler is the real ECS-cache middleware.
+	ecs := newECSState(h)
+	eb, err := tbench.Start(tbench.Config{
+		Handler: ecs, Disposer: ecs.cloner, DNS: tbench.StreamOptions{MaxUDPRespSize: 4096},
+	})
+	if err != nil {
+		r.Sample(map[string]any{"setup_error": err.Error()})
+		r.Inconclusive("cannot start the ecs-cache bench: " + err.Error())
+
+		return
+	}
+	defer func() {
+		if cErr := eb.Close(); cErr != nil {
+			r.Extra("shutdown_error_ecs_cache_bench", cErr.Error())
+		}
+	}()
+	e.benches = append(e.benches, eb)
+	ecsP := ecsPaths(len(e.benches) - 1)
+
 	var paths []*pathDef
 	for i, cfg := range configuredMaxima {
 		paths = append(paths, &pathDef{name: fmt.Sprintf("udp@%d", cfg), family: famUDP, bench: i, cfg: cfg, workers: 2})
@@ -113,7 +135,7 @@ func TestCheck(t *testing.T) {
 		paths = append(paths, &pathDef{name: "doh-h3-post", family: famDoH, variant: tbench.HTTP3, h3: true, workers: 2})
 	}
 
-	for _, p := range append(append([]*pathDef(nil), paths...), poolPaths...) {
+	for _, p := range append(append(append([]*pathDef(nil), paths...), poolPaths...), ecsP...) {
 		if p.family != famDoH {
 			continue
 		}
@@ -163,6 +185,15 @@ func TestCheck(t *testing.T) {
 	r.Bucket("shared_cloner:rounds", int64(rounds))
 	r.Bucket("shared_cloner:clones_handed_out_for_class_A", granted)
 	r.Bucket("shared_cloner:class_B_responses_built_on_an_OPT_disposed_after_class_A", reused)
+
+	// The ecs-cache histories.
+	nHist := r.N(400, 4000)
+	if err = e.runECS(ecsP, len(cells)+100_000, nHist, 6); err != nil {
+		r.Inconclusive("cannot build the ecs-cache cells: " + err.Error())
+
+		return
+	}
+	r.Bucket("ecs_cache:histories", int64(nHist))
 
 	e.run(paths, cells)
 
@@ -236,6 +267,12 @@ func TestCheck(t *testing.T) {
 		r.Require("boundary_group:shared-cloner-B:"+f, int64(r.N(30, 150)))
 	}
 	r.Require("boundary_group:shared-cloner-A:"+famDoT, int64(r.N(100, 500)))
+	r.Require("ecs_cache:miss:datagram-client-advertising-less-than-4096-and-answer-larger-than-that", int64(r.N(120, 1200)))
+	r.Require("ecs_cache:hit:datagram-client-advertising-less-than-4096-and-answer-larger-than-that", int64(r.N(100, 1000)))
+	r.Require("ecs_cache:miss:"+famUDP, int64(r.N(150, 1500)))
+	r.Require("ecs_cache:miss:"+famDCUDP, int64(r.N(40, 400)))
+	r.Require("ecs_cache:hit:"+famUDP, int64(r.N(150, 1500)))
+	r.Require("ecs_cache:hit:"+famTCP, int64(r.N(15, 150)))
 	r.Require("keepalive_returned:"+famTCP, 5)
 	r.Require("keepalive_returned:"+famDoT, 5)
 	r.Require("padding_added:"+famDoT, 10)
